@@ -74,6 +74,7 @@ func checkC03(c *Ctx) {
 	c.c03Reset("C03", m, t)
 	c.c03Replies(m, t)
 	c.c03Greeting(m, t)
+	c.c03Index(m)
 	c.c01Atomic("C03/ATOMIC", m)
 	// inside the DATA read itself a failed read (the peer went away before the final dot)
 	// must surface as an error; otherwise the bytes read so far are delivered
